@@ -47,7 +47,7 @@ def describe(tier):
             + ("all 2^16 include subsets; " if tier == "thorough" else "") +
             "oracle: the (module, function) set held by get_analyzers / build_registry equals the expected one, each function exactly once. Keywords: "
             f"ALL {2 ** len(KINDS)} subsets of {len(KINDS)} file kinds (empty, blank lines only, LF, CRLF, duplicates and case variants, trailing space, nested "
-            "sub-directory, dots in names, the same file name in two directories, dot-prefixed files and directories; the directory itself named with glob characters / blanks) are materialised; every non-decoder registry entry is observed behaviourally on a probe text that contains every "
+            "sub-directory, dots in names, the same file name in two directories, dot-prefixed files and directories; the directory itself named with glob characters / blanks, given as an absolute path and as four relative spellings, and a custom directory literally called 'keywords') are materialised; every non-decoder registry entry is observed behaviourally on a probe text that contains every "
             "word: the (type, value) pairs it reports must be exactly (file name, word) for the non-blank lines of one file, one entry per non-empty file; the "
             "decoder part of a registry built with a custom directory must equal the default decoder part. The shipped keyword directory is walked "
             "independently and compared the same way. states = distinct configurations, transitions = registry entries examined, traces = registries "
@@ -246,6 +246,28 @@ def run_unit(unit, rec):
                     ok2, kwonly = rec.guard("C18.total", w, mask, mdreg.get_keywords, tmp)
                     if ok2 and len(kwonly) != len(held(reg)[1]):
                         rec.violation("C18.keywords.searchers", "get_keywords-differs-from-build_registry", w, "get_keywords and build_registry disagree on the searchers", mask)
+                    if mask % 4 == 1:
+                        # the same directory given as a path relative to the working directory (several spellings), and a custom directory
+                        # that is literally called "keywords"
+                        cwd = os.getcwd()
+                        try:
+                            os.chdir(os.path.dirname(tmp))
+                            base = os.path.basename(tmp)
+                            for rel in (base, "./" + base, base + "/", os.path.join("..", os.path.basename(os.path.dirname(tmp)), base)):
+                                wr = dict(w, relative=rel)
+                                ok3, reg3 = rec.guard("C18.total", wr, mask, mdreg.build_registry, rel)
+                                if ok3:
+                                    rec.count("traces")
+                                    check_keywords(rec, reg3, tmp, astd, wr, bin(mask).count("1"))
+                            os.chdir(tmp)
+                            os.makedirs("keywords", exist_ok=True)
+                            with open(os.path.join("keywords", "own"), "wb") as f:
+                                f.write(b"omega\n")
+                            ok4, reg4 = rec.guard("C18.total", dict(w, relative="keywords"), mask, mdreg.build_registry, "keywords")
+                            if ok4:
+                                check_keywords(rec, reg4, os.path.join(tmp, "keywords"), astd, dict(w, relative="keywords"), bin(mask).count("1"))
+                        finally:
+                            os.chdir(cwd)
             finally:
                 shutil.rmtree(tmp, ignore_errors=True)
         rec.sample({"keyword_layout_masks_mod8": unit[1]})
